@@ -32,7 +32,7 @@ METHODS = ("greedy", "random-greedy", "labels", "labels-agglom", "kahypar", "kah
 PARTITION_DIVISIVE = ("labels", "kahypar", "kahypar-balanced")
 NEED_MODULE = {"kahypar": "kahypar", "kahypar-balanced": "kahypar", "kahypar-agglom": "kahypar"}
 SIZE_VALUES = (2, 3, 2, 5, 1, 2, 3, 4)
-CALL_TIMEOUT = 15.0
+CALL_TIMEOUT = 20.0  # CPU seconds
 
 _DEADLINE = None
 
@@ -140,7 +140,7 @@ def run_entry(entry, inputs, output, sd):
         try:
             what, val, complete = pc.with_timeout(CALL_TIMEOUT, _call, entry, inputs, output, sd)
         except pc.Timeout:
-            return f"did not return within {CALL_TIMEOUT:.0f} s"
+            return f"did not return within {CALL_TIMEOUT:.0f} s of CPU time"
         except Exception as e:  # noqa: BLE001 - raising on a valid network is the violation
             return f"raised {type(e).__name__}: {str(e)[:100]}"
         try:
@@ -297,7 +297,7 @@ def build_entries(inputs, output, plan, rng, methods, spaces):
 
 def _work(item):
     name, idx, inputs, output, plan = item
-    if _DEADLINE is not None and time.time() > _DEADLINE:
+    if (_DEADLINE is not None and time.time() > _DEADLINE) or pc.too_many_timeouts():
         return {"skipped": 1, "name": name}
     from cotengra.hyperoptimizers.hyper import get_hyper_space
 
@@ -315,6 +315,8 @@ def _work(item):
     fires = {}
     extra = {}
     for e in entries:
+        if pc.too_many_timeouts():
+            break
         msg = run_entry(e, inputs, output, sd)
         lab = entry_label(e)
         kname = e["kind"] + (":" + e.get("method", e.get("preset", e.get("which", e.get("format", "")))))
@@ -334,7 +336,7 @@ def _work(item):
             case = pc.net_case(inputs, output, sd)
             case["entry"] = e
             samples.append(case)
-    return {"name": name, "n": len(entries), "keys": b"".join(keys), "viols": viols, "samples": samples,
+    return {"name": name, "n": sum(fires.values()), "keys": b"".join(keys), "viols": viols, "samples": samples,
             "fires": fires, "extra": extra}
 
 
@@ -375,14 +377,14 @@ def _plans(tier, rng):
     out.append(("Net(1,3,3) complete", list(scope.networks(1, 3, 3)), True, full,
                 "all 1-tensor networks (rank <= 3 over <= 3 symbols, every output order); 8+3 parameter samples per finder"))
     if tier == "quick":
-        out.append(("Net(2,3,3) complete", list(scope.networks(2, 3, 3)), True, full,
-                    "all 3108 networks; every preset x 4 entry points; 8+3 parameter samples per registered finder (seeded per network)"))
+        out.append(("Net(2,3,3) complete", list(scope.networks(2, 3, 3)), True, light,
+                    "all 3108 networks; every preset x 4 entry points; 2+1 parameter samples per registered finder (seeded per network)"))
         out.append(("Net(3,3,2) complete", list(scope.networks(3, 3, 2)), True, full,
                     "all 4106 networks; every preset x 4 entry points; 8+3 parameter samples per registered finder"))
-        out.append(("Net(3,3,3) sample", scope.sample_networks(3, 3, 3, 1500, rng), False, full, "seeded sample of 1500 of 152423; 8+3 parameter samples"))
-        out.append(("Net(4,4,2) sample", scope.sample_networks(4, 4, 2, 1500, rng), False, full, "seeded sample of 1500 of 318811; 8+3 parameter samples"))
-        out.append(("Net(5..8,6,3) sample", big_networks(1200, rng), False, full,
-                    "seeded sample of 1200 networks with 5-8 tensors over 6 symbols, rank <= 3; 8 samples of each registered space + 3 with small cutoff/groupsize"))
+        out.append(("Net(3,3,3) sample", scope.sample_networks(3, 3, 3, 800, rng), False, full, "seeded sample of 800 of 152423; 8+3 parameter samples"))
+        out.append(("Net(4,4,2) sample", scope.sample_networks(4, 4, 2, 1000, rng), False, full, "seeded sample of 1000 of 318811; 8+3 parameter samples"))
+        out.append(("Net(5..8,6,3) sample", big_networks(1000, rng), False, full,
+                    "seeded sample of 1000 networks with 5-8 tensors over 6 symbols, rank <= 3; 8 samples of each registered space + 3 with small cutoff/groupsize"))
         out.append(("Net(13..14,8,3) sample", big_networks(24, rng, 13, 14, 8, 3), False, light,
                     "seeded sample of 24 networks with 13-14 tensors: above the registered cutoffs, and 'auto' leaves the optimal regime (hyper-optimizer branch)"))
     else:
@@ -401,7 +403,7 @@ def _plans(tier, rng):
 def run_bounded(rep: Report, tier: str) -> None:
     global _DEADLINE
     rng = random.Random(f"{seed()}|C05|plans")
-    _DEADLINE = deadline(tier, 100, 25 * 60)
+    _DEADLINE = deadline(tier, 300, 30 * 60)  # safety net only; the quick scopes are sized to finish well before
     methods = usable_methods()
     from cotengra.hyperoptimizers.hyper import _PATH_FNS
 
@@ -420,7 +422,7 @@ def run_bounded(rep: Report, tier: str) -> None:
         "networks; HyperOptimizer(methods=[m], max_repeats=3, optlib='random', parallel=False, on_trial_error='raise'); optimizer "
         "objects (RandomGreedyOptimizer(parallel=False), RandomOptimizer, GreedyOptimizer, OptimalOptimizer); explicit linear, SSA "
         "(arity 1-3 steps) and edge paths through ContractionTree.from_path(autocomplete=True) and the dispatchers. Exceptions and "
-        f"calls that do not return within {CALL_TIMEOUT:.0f} s are violations. "
+        f"calls that do not return within {CALL_TIMEOUT:.0f} s of CPU time are violations. "
     )
     skipped = sorted(set(_PATH_FNS) - set(methods) - {"greedy-compressed", "greedy-span", "greedy-span-max"})
     rep.assumptions.append(
@@ -439,7 +441,7 @@ def run_bounded(rep: Report, tier: str) -> None:
         for idx, (i, o) in enumerate(nets):
             items.append((name, idx, i, o, plan))
     # expensive items first so that the pool drains evenly
-    items.sort(key=lambda it: -len(it[2]))
+    items.sort(key=lambda it: len(it[2]))  # small networks first: the smallest failing input is found before any time limit
     for status, r in pmap(_work, items, chunk=8):
         agg.add(status, r, "C05")
     agg.finish()
